@@ -10,7 +10,9 @@ LEVEL = "exploration"
 RULE = (
     "seeded random layered DAGs (3-10 nodes; fan-in/out, diamonds, multi-output, side-effect-only and generator "
     "nodes; every graph input gets a random non-empty combination of run-time value x binding x signature default; "
-    "run-time select narrowing leaves nodes unsatisfiable), each run in original and shuffled node order under the "
+    "run-time select narrowing leaves nodes unsatisfiable; in half of the programs some nodes have their own input "
+    "names permuted by with_inputs - a swap or 3-cycle in one call or through a temporary name - and their outputs "
+    "swapped, defaults moved along), each run in original and shuffled node order under the "
     "sync and async runner and compared with RefEval (values, last-invocation arguments, exactly-once set, "
     "never-run set). A case is non-trivial when at least 2 node functions were observed entering and the "
     "result has at least one value; distinct = distinct canonical shape (kinds, arities, wiring, defaults, bindings, "
@@ -34,8 +36,14 @@ def check_case(ctx, spec, provided, select, runner, label):
     run_spec = core.with_async(spec, runner == "async", ctx.rng)
     warm = ctx.rng.random() < 0.4
     ctx.obs["warm_derive_after_use"] += int(warm)
-    out = core.execute(run_spec, provided, runner, select=(select if select is not None else core.UNSET), warm=warm)
     case = {"spec": spec, "provided": provided, "select": select, "runner": runner, "variant": label}
+    try:
+        out = core.execute(run_spec, provided, runner, select=(select if select is not None else core.UNSET), warm=warm)
+    except Exception as e:  # noqa: BLE001
+        if not (type(e).__module__ or "").startswith("hypergraph"):
+            raise
+        ctx.violation("C01:rejected:" + type(e).__name__, f"a valid acyclic program was rejected at construction: {type(e).__name__}: {str(e)[:200]}", case)
+        return None
     inv = out.rec.invocations()
     ctx.obs["enter_events"] += sum(len(v) for v in inv.values())
     ctx.obs["steps"] += out.rec.count("ready")
@@ -92,6 +100,8 @@ def run(ctx):
         spec = gen.gen_dag(rng)
         bind, provided = gen.assign_sources(rng, spec)
         spec["bind"] = bind
+        if rng.random() < 0.5:
+            ctx.obs["programs_with_permuted_wiring"] += 1 if gen.permute_wiring(rng, spec) else 0
         select = None
         if rng.random() < 0.35:
             outs = [e for ns in spec["nodes"] for e in ref.data_output_names(ns)]
